@@ -1,4 +1,5 @@
 import SSVerif.Model.Json
+set_option linter.unusedSimpArgs false
 /-! C14 helper: `json_escape` neither creates nor destroys UTF-8 well-formedness -/
 namespace SSVerif.Json
 
